@@ -446,6 +446,75 @@ def runtime_part(run, tier, seed):
                           key={"p": p, "clause": "statistics"}, replay={})
 
 
+def nested_part(run, tier, seed):
+    """bounded, native ("any interleaving of train()/eval() switches"): the layers sit inside containers (Sequential in a Module); every sequence of switches
+    issued on the root, the inner container or a layer (length <= 3, thorough 4) is followed by a forward, and each layer must behave according to the LAST switch
+    that reached it (ghost: a switch on a node sets the node and everything below it). Also: two forwards through one Dropout before the first backward -- each
+    result back-propagates through its own mask."""
+    import itertools
+    import synapgrad.nn as nn
+    from synapgrad.tensor import Tensor
+    rng = np.random.RandomState(seed + 3)
+    targets = ("root", "seq", "bn", "do")
+    below = {"root": ("root", "seq", "bn", "do"), "seq": ("seq", "bn", "do"), "bn": ("bn",), "do": ("do",)}
+    events = [(t, m) for t in targets for m in ("train", "eval")]
+    for n in range(1, (4 if tier == "thorough" else 3) + 1):
+        for hist in itertools.product(events, repeat=n):
+            bn, do = nn.BatchNorm1d(2), nn.Dropout(0.5)
+            seq = nn.Sequential(bn, do)
+
+            class Net(nn.Module):
+                def __init__(s):
+                    super().__init__()
+                    s.body = seq
+
+                def forward(s, x):
+                    return s.body(x)
+            root = Net()
+            objs = {"root": root, "seq": seq, "bn": bn, "do": do}
+            mode = {k: True for k in targets}
+            for t, m in hist:
+                getattr(objs[t], m)()
+                for k in below[t]:
+                    mode[k] = m == "train"
+            x = (rng.randn(6, 2) * 2 + 3).astype(np.float32)
+            rm0, rv0 = bn.running_mean.data.copy(), bn.running_var.data.copy()
+            np.random.seed(seed)
+            y = root(Tensor(x)).data
+            run.rt(("nested-modes", hist))
+            key = {"history": ["%s.%s()" % e for e in hist], "expected_training": {k: mode[k] for k in ("bn", "do")}}
+            stats_changed = not (np.array_equal(rm0, bn.running_mean.data) and np.array_equal(rv0, bn.running_var.data))
+            if mode["bn"]:
+                h = (x - x.mean(0)) / np.sqrt(x.var(0) + 1e-5)
+            else:
+                h = (x - rm0) / np.sqrt(rv0 + 1e-5)
+            if stats_changed != mode["bn"]:
+                run.violation("synapgrad.nn.layers.BatchNorm1d.mode_follows_last_switch", "after %s BatchNorm %s its running statistics (it should be in %s mode)" %
+                              (key["history"], "updated" if stats_changed else "did not update", "training" if mode["bn"] else "eval"), key={**key, "layer": "BatchNorm1d"}, replay=key)
+                continue
+            if mode["do"]:
+                ok = np.all((y == 0) | np.isclose(y, 2.0 * h, rtol=1e-4, atol=1e-5)) and np.any(y == 0) and np.any(y != 0)
+            else:
+                ok = np.allclose(y, h, rtol=1e-4, atol=1e-5)
+            if not ok:
+                run.violation("synapgrad.nn.layers.Dropout.mode_follows_last_switch", "after %s the output is not %s of the %s-mode normalisation" % (key["history"], "a dropout (zeros / doubled survivors)" if mode["do"] else "the identity",
+                                                                                              "training" if mode["bn"] else "eval"), key={**key, "layer": "Dropout/BatchNorm1d"}, replay=key)
+    # one Dropout used twice before the first backward: each result back-propagates through ITS OWN mask
+    for shape in [(4, 5), (3,)]:
+        np.random.seed(seed + 1)
+        L = nn.Dropout(0.5)
+        xs = [Tensor(np.ones(shape, dtype=np.float64) * (i + 1.5), requires_grad=True) for i in range(3)]
+        ys = [L(xi) for xi in xs]
+        masks = [np.asarray(yi.data) / np.asarray(xi.data) for xi, yi in zip(xs, ys)]
+        for i in (0, 1, 2):
+            ys[i].backward(Tensor(np.full(shape, 3.0)))
+            run.rt(("dropout-own-mask", shape, i))
+            if not np.allclose(xs[i]._grad, 3.0 * masks[i]):
+                run.violation("synapgrad.nn.layers.Dropout.backward_through_the_same_mask", "forward #%d of 3 through one Dropout(0.5), backward afterwards: x.grad %s, its own mask (scaled) %s" %
+                              (i, np.asarray(xs[i]._grad).ravel()[:6].tolist(), (3.0 * masks[i]).ravel()[:6].tolist()), key={"clause": "own_mask", "forward_index": i, "shape": list(shape)}, replay={})
+                break
+
+
 def main(tier="quick", seed=0, procs=None, only=None):
     run = Run("C13", tier, seed, "proof")
     run.assume("reals", "numpy", "shims", "atoms", "engines", "pyvc-encoding")
@@ -454,7 +523,8 @@ def main(tier="quick", seed=0, procs=None, only=None):
     run.bounds = {"pyvc": "unbounded: every training flag, every real momentum or None, every counter value k >= 0, both track_running_stats settings",
                   "symreal": "BatchNorm1d on (3,2),(2,1,2), BatchNorm2d on (2,1,1,2); affine x track x momentum {symbolic, None, 0.25}; 6 histories of <=3 forwards with train/eval switches; "
                              "Dropout p in {0,0.1,0.5,0.9,1} x 2-5 seeds on (3,4)",
-                  "runtime": "float32 forwards for batch sizes 2-5 on 2-d/3-d/4-d inputs, 5-step mode histories; Dropout statistics on 10^5 elements"}
+                  "runtime": "float32 forwards for batch sizes 2-5 on 2-d/3-d/4-d inputs, 5-step mode histories; Dropout statistics on 10^5 elements; every sequence of <=3 (thorough 4) train/eval "
+                             "switches on root / inner Sequential / BatchNorm / Dropout of a nested model followed by a forward; three forwards through one Dropout before the backward calls"}
     run.rule = "pyvc: one case = BatchNorm.forward x (momentum kind, tracking); symreal: one case = (layer, shape, options, history) or (p, mode, seed)"
     cs = cases(tier, seed)
     if only:
@@ -462,6 +532,7 @@ def main(tier="quick", seed=0, procs=None, only=None):
     run_catalogue(run, cs, seed=seed, procs=procs)
     try:
         runtime_part(run, tier, seed)
+        nested_part(run, tier, seed)
     except Exception as e:
         run.error("runtime part failed", e)
     return run.finish()
